@@ -74,9 +74,9 @@ PROPS['C05'] = {
     'extra_harnesses': r'^c04_memory_addr$|^c04_labels$',
     'explanation': 'the 22 MOV, 6 XCHG, 4 PUSH, 3 POP productions and PUSHF/POPF/LAHF/SAHF/XLAT, against dst := src / swap / '
                    'stack-discipline oracles, plus PUSH x; POP y and a 4-step LIFO history from an arbitrary SS:SP',
-    'bounds': 'each production from an arbitrary state (the inductive step of any stack history); histories of length 2 and 4',
+    'bounds': 'each production from an arbitrary state (the inductive step of any stack history); PUSH x; POP y; a fixed 4-step history; every interleaving of 4 (quick) / 6 (thorough) pushes and pops of symbolically chosen registers against a reference stack',
     'outside': 'memory operands of PUSH/POP that overlap the stack cells being transferred; PUSH SP / POP SP accept both documented behaviours; the assembler side of push/pop is C10/C11',
-    'backends': [(r'_(rr8|rr16|ri8|ri16|sr|rs)$', ['sat', ('cvc5', 'z3')]), (r'pair|lifo', [('cvc5', 'z3'), 'sat-arrays']), (r'.*', [('cvc5', 'z3'), 'sat-arrays'])],
+    'backends': [(r'_(rr8|rr16|ri8|ri16|sr|rs)$', ['sat', ('cvc5', 'z3')]), (r'pair|lifo|history', [('cvc5', 'z3'), 'sat-arrays']), (r'.*', [('cvc5', 'z3'), 'sat-arrays'])],
     'timeout': {'quick': 600, 'thorough': 1800},
     'assumptions': ['the physical address of a memory operand is an arbitrary symbolic value (C04 decides that it is the right one)'],
     'level_text': 'bounded model checking: every production is decided for all register, flag, address and memory contents '
